@@ -63,7 +63,7 @@ pub fn c15_case(combo: u64, rng: &mut Rng) -> Case {
     }
     let mut p = crate::gen::Profile::default();
     p.faults = rng.chance(1, 2);
-    p.monitors = true;
+    p.p_monitors = 50;
     let knobs = crate::gen::gen_knobs(rng, &p);
     Case { cap, ctor: Flavour::Async, class, mask: rng.next(), knobs, tasks, main_keeps_roots: false, lock_harness: false, epilogue: vec![] }
 }
